@@ -89,8 +89,8 @@ def impl(fun):
         return 'IOtherErr'
 
 
-def add_case(cs, model, impl_term, desc, key, typeerr=False):
-    cs.add('{| k_model := %s; k_impl := %s; k_typeerr := %s |}' % (model, impl_term, C.b(typeerr)), desc, key)
+def add_case(cs, model, impl_term, desc, key):
+    cs.add('{| k_model := %s; k_impl := %s |}' % (model, impl_term), desc, key)
 
 
 # ---------------------------------------------------- detector parameters
@@ -208,27 +208,6 @@ def rnd_shift(rng, n):
 
 
 # ------------------------------------------------------------- variant switch
-def par2d_slice_fixed():
-    """Measured on the finding's own input: does Parallel2dGeometry.__getitem__ add the translation twice?"""
-    import odl
-    ap, dp = _parts(odl, 1)
-    g = odl.tomo.Parallel2dGeometry(ap, dp, det_pos_init=[3.0, 4.0], translation=[1.0, 2.0])
-    h = g[1:3]
-    return bool(np.allclose(h.det_pos_init, [4.0, 6.0]))
-
-
-def cone_slice_curved_raises():
-    """Measured variant: does ConeBeamGeometry.__getitem__ raise TypeError for a curved detector?"""
-    import odl
-    ap, dp = _parts(odl, 2)
-    g = odl.tomo.ConeBeamGeometry(ap, dp, 5.0, 5.0, det_curvature_radius=(2.5, None))
-    try:
-        g[1:3]
-        return False
-    except TypeError:
-        return True
-
-
 def curved_alignment_fixed():
     """Measured variant: do the curved detectors align a0, a1 exactly (surface_deriv(0,0) = r * axes) on the
     recorded antiparallel input?"""
@@ -238,22 +217,6 @@ def curved_alignment_fixed():
     d = CylindricalDetector(dp, axes=[(0, 1, 0), (0, 0, 1)], radius=2.0)
     return bool(np.allclose(d.surface_deriv((0.0, 0.0)), [[0, 2, 0], [0, 0, 1]], atol=1e-10))
 
-
-def _float_perp(odl, axis, axes, m=None):
-    """Would the detector axes the constructor computes be EXACTLY perpendicular in floating point?
-    (Cylindrical/SphericalDetector test dot != 0; when rounding decides, the input is outside the
-    exact-arithmetic model and is left to the probe 'cone-curved-axes-exact-perpendicularity'.)"""
-    from odl.tomo.util.utility import transform_system
-    try:
-        if m is not None:
-            vecs = transform_system((0, 0, 1), None, [(1, 0, 0), (0, 0, 1)], matrix=np.array(m, dtype=float))
-        elif axes is not None:
-            return float(np.dot(fl(axes[0]), fl(axes[1]))) == 0.0
-        else:
-            vecs = transform_system(fl(axis), (0, 0, 1), [(1, 0, 0), (0, 0, 1)])
-        return float(np.dot(vecs[1], vecs[2])) == 0.0
-    except Exception:
-        return True
 
 
 # ------------------------------------------------------------ correspondence
@@ -377,7 +340,7 @@ def _pts3(rng, n, kind):
     return pts, terms
 
 
-def par2d_cases(rng, tier, fixed):
+def par2d_cases(rng, tier):
     import odl
     cs = C.CaseSet('par2d', IMPORTS, 'check', 'case')
     ap, dp = _parts(odl, 1)
@@ -423,8 +386,8 @@ def par2d_cases(rng, tier, fixed):
                 model = 'obs_par2d (%s) %s' % (mk, ptt)
                 it = impl(lambda: obs_par2d(build(), pts))
             else:
-                model = ('obs_par2d (bindg (%s) (fun g => q_par2d_getitem %s g %s)) %s'
-                         % (mk, C.b(fixed), opt(axis, qv), ptt))
+                model = ('obs_par2d (bindg (%s) (fun g => q_par2d_getitem g %s)) %s'
+                         % (mk, opt(axis, qv), ptt))
                 it = impl(lambda: obs_par2d(build()[i:j], pts))
                 desc['slice'] = [i, j]
         add_case(cs, model, it, desc, key)
@@ -575,7 +538,7 @@ def fan_cases(rng, tier):
     return cs
 
 
-def cone_cases(rng, tier, slice_raises, curved_fixed):
+def cone_cases(rng, tier, curved_fixed):
     import odl
     cs = C.CaseSet('cone', IMPORTS, 'check', 'case')
     ap, dp = _parts(odl, 2)
@@ -592,11 +555,6 @@ def cone_cases(rng, tier, slice_raises, curved_fixed):
             s2d = [0, 0, 0]               # ValueError
         kind = rng.choice(['flat', 'flat', 'cyl', 'sph'])
         axes = _axes3(rng) if kind == 'flat' else (_perp_axes3(rng) if rng.random() < 0.7 else None)
-        if kind != 'flat' and axes is None and tuple(axis) in GEN3:
-            # default axes of a curved detector: the exact perpendicularity test needs exact roots
-            axis = list(rng.choice(PYTH3))
-            if s2d is not None and np.linalg.norm(np.cross(s2d, axis)) == 0:
-                s2d = None
         tr = rng.choice([[0, 0, 0], [1, -2, 0.5], [0.25, 0, -3]])
         rs, rd = rng.choice([(2, 1), (5, 5), (3, 0), (0, 4), (1.5, 2.25), (-1, 2), (7, 3), (2, -1), (0, 0), (4, 2)])
         if kind == 'flat' and rng.random() < 0.05:
@@ -625,11 +583,8 @@ def cone_cases(rng, tier, slice_raises, curved_fixed):
                 'src_shift': None if ssf is None else [ssf.c0.tolist(), ssf.c1.tolist()],
                 'det_shift': None if dsf is None else [dsf.c0.tolist(), dsf.c1.tolist()]}
         key = ('cone', C.digest(desc))
-        typeerr = (mode == 'slice' and kind != 'flat' and slice_raises)
         if mode == 'matrix':
             m = _rot3(rng)
-            if kind != 'flat' and not _float_perp(odl, None, None, [fl(r) for r in m]):
-                m = [[0, -1, 0], [1, 0, 0], [0, 0, 1]]
             with_tr = rng.random() < 0.6
             mat = [fl(row) + ([float(t)] if with_tr else []) for row, t in zip(m, tr)]
             trm = tr if with_tr else [0, 0, 0]
@@ -640,11 +595,6 @@ def cone_cases(rng, tier, slice_raises, curved_fixed):
             desc['init_matrix'] = str(mat)
             key = ('cone', C.digest(desc))
         else:
-            if kind != 'flat' and not _float_perp(odl, axis, axes):
-                axes = _perp_axes3(rng)
-                desc['det_axes_init'] = str(axes)
-                key = ('cone', C.digest(desc))
-
             def build():
                 k2 = dict(kw)
                 if s2d is not None:
@@ -661,20 +611,14 @@ def cone_cases(rng, tier, slice_raises, curved_fixed):
             else:
                 model = 'obs_cone (bindg (%s) (q_cone_getitem %s)) %s %s' % (mk, C.b(curved_fixed), C.q(twopi), ptt)
                 it = impl(lambda: obs_cone(build()[i:j], pts))
-                if typeerr:
-                    try:
-                        build()
-                    except ValueError:
-                        typeerr = False     # rejected by the constructor before any slicing happens
-        add_case(cs, model, it, desc, key, typeerr)
+        add_case(cs, model, it, desc, key)
     return cs
 
 
 def correspondence(rng, tier):
-    fixed = par2d_slice_fixed()
     _ARANGE[0] = (-4.0, 4.0)
-    out = [utility_cases(rng, tier), par2d_cases(rng, tier, fixed), par3_cases(rng, tier), fan_cases(rng, tier),
-           cone_cases(rng, tier, cone_slice_curved_raises(), curved_alignment_fixed())]
+    out = [utility_cases(rng, tier), par2d_cases(rng, tier), par3_cases(rng, tier), fan_cases(rng, tier),
+           cone_cases(rng, tier, curved_alignment_fixed())]
     _ARANGE[0] = (-4.0, 4.0)
     return out
 
